@@ -666,6 +666,12 @@ class FnTrans:
         carried = [a for a in assigned if a in env]
         return carried
 
+    @staticmethod
+    def order_carried(carried, types):
+        """order of the carried variables in a helper's signature: by type, then by name — independent of statement order and,
+        where the types differ, of the names"""
+        return sorted(carried, key=lambda c: (lean_ty(types[c]), c))
+
     def used_only(self, fixed, lines):
         """the fixed parameters a helper's text actually mentions (the recursive calls pass all of them: drop those first)"""
         text = "\n".join(lines)
@@ -681,6 +687,7 @@ class FnTrans:
             cx.bad(s, "while loop without an entry in the fuel table")
         types = self.loop_types(carried, env, lambda eh, rec: self.test(s.test, eh, lambda e: self.block(s.body, e, rec), lambda e: Raw("_")))
         cx.nloop += 1
+        carried = self.order_carried(carried, types)
         hname = "%s_loop%s" % (self.spec.lean, "" if idx == 0 else str(idx))
         fixed = [("self." + a, v) for a, v in self.attr_vars.items()] + [(key, v) for key, v in env.items() if key not in carried]
         # helper parameters get the current Lean names; carried ones fresh names at their loop type
@@ -741,6 +748,7 @@ class FnTrans:
         types = self.loop_types(carried, env, lambda eh, rec: self.block(s.body, bind_target(eh)[0], rec))
         idx = cx.nloop
         cx.nloop += 1
+        carried = self.order_carried(carried, types)
         hname = "%s_for%s" % (self.spec.lean, "" if idx == 0 else str(idx))
         fixed = [("self." + a, v) for a, v in self.attr_vars.items()] + [(key, v) for key, v in env.items() if key not in carried]
         envh = dict(env)
